@@ -640,7 +640,9 @@ def lexer_stage(ctx, rng, texts, lexer_state, lex_rules, found):
     pipeline over it; returns coverage"""
     h = ctx.compile_harness(["c11_lex.c"], "c11_lex", mode="san")
     inputs, kinds = lex_inputs(ctx, rng, texts)
-    unpatched = lexer_state == "unpatched-newline"
+    # does the snapshot's scanner let a newline fall through to flex's default rule (tokenizer.l without fixes/C11_newline.patch, possibly
+    # with other edits)?  Then the known finding applies to every input with a newline.
+    unpatched = lexer_state == "unpatched-newline" or (lex_rules is not None and py_flex(lex_rules, "\n").endswith("ECHO 0a"))
     # on the tree without fixes/C11_newline.patch a newline is echoed and skipped: same tokens and result as with a blank in its place
     model_in = [s.replace("\n", " ") if unpatched else s for s in inputs]
     model = run_lex_model(ctx, model_in)
@@ -753,7 +755,7 @@ def run(ctx):
         stale = []
         if restore_lex is not None:
             with open(LEXGEN, "w") as f: f.write(restore_lex)
-            stale += ["Gen/LexerGen", "LexPipeline", "LexPipelineProofs", "LexAgree", "LexLiteral", "InlineYaccModel"]
+            stale += ["Gen/LexerGen", "LexPipeline", "LexPipelineProofs", "LexAgree", "LexLiteral", "LexLiteralScan", "InlineYaccModel"]
         if restore is not None:
             with open(GEN, "w") as f: f.write(restore)
             stale += ["Gen/GrammarGen", "InlineGrammarShape", "InlineLRCheck"]
